@@ -52,6 +52,22 @@ func (e *editor) insert(pos int, text string) {
 func (e *editor) replace(pos, end int, text string) {
 	e.edits = append(e.edits, edit{pos, end, text, len(e.edits)})
 }
+// extract renders src[pos:end] with the edits lying inside that range applied, and drops
+// those edits: the text is going to be moved somewhere else.
+func (e *editor) extract(pos, end int) string {
+	sub := &editor{src: e.src[pos:end]}
+	var rest []edit
+	for _, ed := range e.edits {
+		if ed.pos >= pos && ed.end <= end {
+			sub.edits = append(sub.edits, edit{ed.pos - pos, ed.end - pos, ed.text, ed.seq})
+		} else {
+			rest = append(rest, ed)
+		}
+	}
+	e.edits = rest
+	return string(sub.render())
+}
+
 func (e *editor) render() []byte {
 	sort.SliceStable(e.edits, func(i, j int) bool {
 		if e.edits[i].pos != e.edits[j].pos {
@@ -416,6 +432,7 @@ func typedRewrites(fset *token.FileSet, f *ast.File, info *types.Info, ed *edito
 	keepImport := map[string]string{} // import name -> a symbol of it, kept alive after its calls were rerouted
 	skipRecv := map[*ast.UnaryExpr]bool{}
 	skipSend := map[*ast.SendStmt]bool{}
+	var selects []*ast.SelectStmt
 	// recvElem: element type of the channel being received from, as written in this file.
 	recvElem := func(u *ast.UnaryExpr) string {
 		tv, ok := info.Types[u.X]
@@ -831,9 +848,8 @@ func typedRewrites(fset *token.FileSet, f *ast.File, info *types.Info, ed *edito
 					}
 				}
 			case *ast.SelectStmt:
-				pkgHasSelect = true
-				report.ChanOps = append(report.ChanOps, where(x)+" select")
-				// receives that are the communication of a select case stay as they are
+				selects = append(selects, x)
+				// receives that are the communication of a select case are handled with the select
 				for _, cl := range x.Body.List {
 					if cc, ok := cl.(*ast.CommClause); ok && cc.Comm != nil {
 						ast.Inspect(cc.Comm, func(m ast.Node) bool {
@@ -852,6 +868,119 @@ func typedRewrites(fset *token.FileSet, f *ast.File, info *types.Info, ed *edito
 		})
 	}
 	visit(f)
+	// select statements, after everything inside them has been rewritten: the channel
+	// expressions and send values move into one zzverifrt.Select call, the clauses become
+	// the cases of a switch on the chosen index
+	unparen := func(e ast.Expr) ast.Expr {
+		for {
+			p, ok := e.(*ast.ParenExpr)
+			if !ok {
+				return e
+			}
+			e = p.X
+		}
+	}
+	for _, x := range selects {
+		type clause struct {
+			cc     *ast.CommClause
+			send   bool
+			chanE  ast.Expr
+			valE   ast.Expr
+			lhs    []ast.Expr
+			define bool
+			elem   string
+		}
+		var cls []clause
+		ok := true
+		hasDefault := false
+		for _, st := range x.Body.List {
+			cc, isCC := st.(*ast.CommClause)
+			if !isCC {
+				ok = false
+				break
+			}
+			c := clause{cc: cc}
+			switch cm := cc.Comm.(type) {
+			case nil:
+				hasDefault = true
+			case *ast.SendStmt:
+				c.send, c.chanE, c.valE = true, cm.Chan, cm.Value
+			case *ast.ExprStmt:
+				u, isU := unparen(cm.X).(*ast.UnaryExpr)
+				if !isU || u.Op != token.ARROW {
+					ok = false
+					break
+				}
+				c.chanE = u.X
+			case *ast.AssignStmt:
+				if len(cm.Rhs) != 1 || len(cm.Lhs) > 2 {
+					ok = false
+					break
+				}
+				u, isU := unparen(cm.Rhs[0]).(*ast.UnaryExpr)
+				if !isU || u.Op != token.ARROW {
+					ok = false
+					break
+				}
+				c.chanE, c.lhs, c.define, c.elem = u.X, cm.Lhs, cm.Tok == token.DEFINE, recvElem(u)
+				if c.elem == "" {
+					ok = false
+				}
+			default:
+				ok = false
+			}
+			cls = append(cls, c)
+		}
+		if !ok {
+			pkgHasSelect = true
+			report.ChanOps = append(report.ChanOps, where(x)+" select (not rewritten)")
+			continue
+		}
+		report.SyncSites = append(report.SyncSites, where(x)+" select")
+		hdr := "switch sims := " + rtImportName + ".Select(" + fmt.Sprint(hasDefault)
+		k := 0
+		for _, c := range cls {
+			if c.cc.Comm == nil {
+				ed.replace(off(c.cc.Pos()), off(c.cc.Colon)+1, "default:")
+				continue
+			}
+			var lhs []string
+			for _, l := range c.lhs {
+				lhs = append(lhs, ed.extract(off(l.Pos()), off(l.End())))
+			}
+			ch := ed.extract(off(c.chanE.Pos()), off(c.chanE.End()))
+			if c.send {
+				hdr += ", " + rtImportName + ".SelSend(" + ch + ", " + ed.extract(off(c.valE.Pos()), off(c.valE.End())) + ")"
+			} else {
+				hdr += ", " + rtImportName + ".SelRecv(" + ch + ")"
+			}
+			pro := fmt.Sprintf("case %d:", k)
+			k++
+			if len(lhs) > 0 {
+				asg := " = "
+				if c.define {
+					asg = " := "
+				}
+				if !(c.define && lhs[0] == "_") {
+					pro += " " + lhs[0] + ", _" + asg + "sims.V.(" + c.elem + ");"
+					if c.define {
+						pro += " _ = " + lhs[0] + ";"
+					}
+				}
+				if len(lhs) == 2 && !(c.define && lhs[1] == "_") {
+					pro += " " + lhs[1] + asg + "sims.OK;"
+					if c.define {
+						pro += " _ = " + lhs[1] + ";"
+					}
+				}
+			}
+			// (drop whatever edits are left inside the clause header, e.g. on parentheses)
+			ed.extract(off(c.cc.Pos()), off(c.cc.Colon)+1)
+			ed.replace(off(c.cc.Pos()), off(c.cc.Colon)+1, pro)
+		}
+		hdr += "); sims.I {"
+		ed.replace(off(x.Pos()), off(x.Body.Lbrace)+1, hdr)
+	}
 	// the rewritten file may no longer use an import it declares: keep it referenced
 	for name, sym := range keepImport {
 		ed.insert(len(ed.src), "\nvar _ = "+name+sym[strings.Index(sym, "."):]+"\n")
@@ -1312,6 +1441,13 @@ func Go(f func()) {
 	atomic.AddInt32(&realSpawned, 1)
 	go func() {
 		defer atomic.AddInt32(&realSpawned, -1)
+		defer func() {
+			// the reference evaluation's step budget ran out in a goroutine the library
+			// started: the caller sees its own budget end too, nothing to report here
+			if r := recover(); r != nil && fmt.Sprintf("%T", r) != "simrt.StepCapExceeded" {
+				panic(r)
+			}
+		}()
 		f()
 	}()
 }
@@ -1323,10 +1459,11 @@ func RealSpawned() int32 { return atomic.LoadInt32(&realSpawned) }
 // Unbuffered channels cannot rendezvous when both sides only poll, so a simulated send
 // on an unbuffered channel parks its value in a table until a simulated receive takes it.
 type pendEnt struct {
-	ch    uintptr
-	v     interface{}
-	used  bool
-	taken bool
+	ch       uintptr
+	v        interface{}
+	used     bool
+	taken    bool
+	detached bool // the sender did not wait (select with default): the receiver frees the slot
 }
 
 var pendTab [64]pendEnt
@@ -1347,11 +1484,68 @@ func pendTake(ch uintptr) (interface{}, int) {
 	for i := range pendTab {
 		if pendTab[i].used && !pendTab[i].taken && pendTab[i].ch == ch {
 			pendTab[i].taken = true
-			return pendTab[i].v, i
+			v := pendTab[i].v
+			if pendTab[i].detached {
+				pendTab[i] = pendEnt{}
+			}
+			return v, i
 		}
 	}
 	return nil, -1
 }
+
+//go:norace
+func pendCount(ch uintptr) int {
+	n := 0
+	for i := range pendTab {
+		if pendTab[i].used && !pendTab[i].taken && pendTab[i].ch == ch {
+			n++
+		}
+	}
+	return n
+}
+
+//go:norace
+func pendDetach(i int) { pendTab[i].detached = true }
+
+// Receivers currently polling an unbuffered channel: a select with a default clause may
+// only choose its send case when a receiver is really waiting.
+type waitEnt struct {
+	ch uintptr
+	n  int
+}
+
+var waitTab [64]waitEnt
+
+//go:norace
+func waitAdd(ch uintptr, d int) {
+	free := -1
+	for i := range waitTab {
+		if waitTab[i].n > 0 && waitTab[i].ch == ch {
+			waitTab[i].n += d
+			return
+		}
+		if waitTab[i].n <= 0 && free < 0 {
+			free = i
+		}
+	}
+	if d > 0 && free >= 0 {
+		waitTab[free] = waitEnt{ch, d}
+	}
+}
+
+//go:norace
+func waitCount(ch uintptr) int {
+	for i := range waitTab {
+		if waitTab[i].n > 0 && waitTab[i].ch == ch {
+			return waitTab[i].n
+		}
+	}
+	return 0
+}
+
+//go:norace
+func waitReset() { waitTab = [64]waitEnt{} }
 
 //go:norace
 func pendTaken(i int) bool { return pendTab[i].taken }
@@ -1427,17 +1621,193 @@ func Recv2(ch interface{}) (interface{}, bool) {
 		v, ok := rv.Recv()
 		return v.Interface(), ok
 	}
+	waiting := false
 	for {
 		FireTimers()
 		if rv.Cap() == 0 {
 			if v, slot := pendTake(rv.Pointer()); slot >= 0 {
 				raceAcquire(unsafe.Pointer(&pendTab[slot]))
+				if waiting {
+					waitAdd(rv.Pointer(), -1)
+				}
 				return v, true
 			}
 		}
 		v, ok := rv.TryRecv()
 		if v.IsValid() {
+			if waiting {
+				waitAdd(rv.Pointer(), -1)
+			}
 			return v.Interface(), ok
+		}
+		if !waiting && rv.Cap() == 0 {
+			waiting = true
+			waitAdd(rv.Pointer(), 1)
+		}
+		if b := Blocked; b != nil {
+			b()
+		}
+	}
+}
+
+// ---- select --------------------------------------------------------------------------
+// select { case v, ok := <-a: … case b <- x: … default: … } is rewritten to
+// switch sims := Select(hasDefault, SelRecv(a), SelSend(b, x)); sims.I { case 0: … case 1: … default: … }
+
+type SelCase struct {
+	send bool
+	ch   reflect.Value
+	val  reflect.Value
+	slot int
+	reg  bool
+}
+
+type SelResult struct {
+	I  int
+	V  interface{}
+	OK bool
+}
+
+var selState uint64 = 0x9e3779b97f4a7c15
+
+// selNext: the select statement's own random stream (not simRand: the race detector
+// would see unsynchronised clients sharing it).
+//
+//go:norace
+func selNext(n int) int {
+	selState ^= selState << 13
+	selState ^= selState >> 7
+	selState ^= selState << 17
+	return int(selState % uint64(n))
+}
+
+//go:norace
+func selSeed(seed int64) { selState = uint64(seed)*0x9e3779b97f4a7c15 | 1 }
+
+func SelRecv(ch interface{}) SelCase { return SelCase{ch: reflect.ValueOf(ch), slot: -1} }
+
+func SelSend(ch interface{}, v interface{}) SelCase {
+	rv := reflect.ValueOf(ch)
+	var val reflect.Value
+	if v == nil {
+		val = reflect.Zero(rv.Type().Elem())
+	} else {
+		val = reflect.ValueOf(v)
+		if et := rv.Type().Elem(); val.Type() != et && val.Type().ConvertibleTo(et) {
+			val = val.Convert(et)
+		}
+	}
+	return SelCase{send: true, ch: rv, val: val, slot: -1}
+}
+
+func Select(hasDefault bool, cases ...SelCase) SelResult {
+	if !simulating() {
+		rc := make([]reflect.SelectCase, 0, len(cases)+1)
+		for _, c := range cases {
+			if c.send {
+				rc = append(rc, reflect.SelectCase{Dir: reflect.SelectSend, Chan: c.ch, Send: c.val})
+			} else {
+				rc = append(rc, reflect.SelectCase{Dir: reflect.SelectRecv, Chan: c.ch})
+			}
+		}
+		if hasDefault {
+			rc = append(rc, reflect.SelectCase{Dir: reflect.SelectDefault})
+		}
+		i, v, ok := reflect.Select(rc)
+		if i == len(cases) {
+			return SelResult{I: -1}
+		}
+		if cases[i].send {
+			return SelResult{I: i}
+		}
+		return SelResult{I: i, V: v.Interface(), OK: ok}
+	}
+	n := len(cases)
+	// leave: withdraw parked sends and waiter registrations of the cases not chosen
+	leave := func(chosen int) {
+		for i := range cases {
+			c := &cases[i]
+			if c.reg {
+				waitAdd(c.ch.Pointer(), -1)
+				c.reg = false
+			}
+			if c.slot >= 0 && i != chosen {
+				pendFree(c.slot)
+				c.slot = -1
+			}
+		}
+	}
+	start := 0
+	if n > 1 {
+		start = selNext(n) // Go chooses among ready cases pseudo-randomly: one stream per run
+	}
+	for {
+		FireTimers()
+		// a parked send of this select that a receiver took in the meantime has happened
+		for i := range cases {
+			if c := &cases[i]; c.slot >= 0 && pendTaken(c.slot) {
+				pendFree(c.slot)
+				c.slot = -1
+				leave(i)
+				return SelResult{I: i}
+			}
+		}
+		for k := 0; k < n; k++ {
+			i := (start + k) % n
+			c := &cases[i]
+			if !c.ch.IsValid() || c.ch.IsNil() {
+				continue
+			}
+			if !c.send {
+				if c.ch.Cap() == 0 {
+					if v, slot := pendTake(c.ch.Pointer()); slot >= 0 {
+						raceAcquire(unsafe.Pointer(&pendTab[slot]))
+						leave(i)
+						return SelResult{I: i, V: v, OK: true}
+					}
+				}
+				if v, ok := c.ch.TryRecv(); v.IsValid() {
+					leave(i)
+					return SelResult{I: i, V: v.Interface(), OK: ok}
+				}
+				continue
+			}
+			if c.ch.Cap() > 0 {
+				if c.ch.TrySend(c.val) {
+					leave(i)
+					return SelResult{I: i}
+				}
+				continue
+			}
+			if c.slot >= 0 {
+				continue
+			}
+			if hasDefault {
+				// chosen only if a receiver is waiting right now
+				if waitCount(c.ch.Pointer()) > pendCount(c.ch.Pointer()) {
+					if slot := pendPut(c.ch.Pointer(), c.val.Interface()); slot >= 0 {
+						raceReleaseMerge(unsafe.Pointer(&pendTab[slot]))
+						pendDetach(slot)
+						leave(i)
+						return SelResult{I: i}
+					}
+				}
+				continue
+			}
+			if slot := pendPut(c.ch.Pointer(), c.val.Interface()); slot >= 0 {
+				raceReleaseMerge(unsafe.Pointer(&pendTab[slot]))
+				c.slot = slot
+			}
+		}
+		if hasDefault {
+			leave(-1)
+			return SelResult{I: -1}
+		}
+		for i := range cases {
+			if c := &cases[i]; !c.send && !c.reg && c.ch.IsValid() && !c.ch.IsNil() && c.ch.Cap() == 0 {
+				c.reg = true
+				waitAdd(c.ch.Pointer(), 1)
+			}
 		}
 		if b := Blocked; b != nil {
 			b()
@@ -1503,6 +1873,8 @@ func timerAdd(at int64, ch chan time.Time) bool {
 
 // FireTimers delivers every timer whose deadline has passed; it returns the earliest
 // pending deadline (0 if none).
+//
+//go:norace
 func FireTimers() int64 {
 	if Clock == nil {
 		return 0
@@ -1545,13 +1917,33 @@ func After(d time.Duration) <-chan time.Time {
 	return ch
 }
 
-var simRand = rand.New(rand.NewSource(1))
+// simSource: the deterministic stream behind Rand(). The package-level math/rand
+// functions it stands in for are safe for concurrent use, so its state is updated where
+// the race detector does not look (clients are unsynchronised as far as it can tell).
+type simSource struct{ s uint64 }
+
+//go:norace
+func (x *simSource) Uint64() uint64 {
+	x.s += 0x9e3779b97f4a7c15
+	z := x.s
+	z = (z ^ (z >> 30)) * 0xbf58476d1ce4e5b9
+	z = (z ^ (z >> 27)) * 0x94d049bb133111eb
+	return z ^ (z >> 31)
+}
+
+func (x *simSource) Int63() int64 { return int64(x.Uint64() >> 1) }
+
+//go:norace
+func (x *simSource) Seed(seed int64) { x.s = uint64(seed) }
+
+var simSrc = &simSource{s: 1}
+var simRand = rand.New(simSrc)
 
 // Rand replaces the package-level math/rand source: one deterministic stream per run.
 func Rand() *rand.Rand { return simRand }
 
 // RandSeed is called by the harness at the start of every run.
-func RandSeed(seed int64) { simRand = rand.New(rand.NewSource(seed)) }
+func RandSeed(seed int64) { simSrc.Seed(seed); selSeed(seed) }
 
 // ---- deterministic sync.Pool -------------------------------------------------------
 // sync.Pool hands out "some" object: which one depends on the P the goroutine runs on and
@@ -1756,6 +2148,7 @@ func ResetAll() {
 	wgReset()
 	poolReset()
 	pendReset()
+	waitReset()
 	timerReset()
 	for _, f := range resets {
 		f()
